@@ -37,7 +37,7 @@ type c12Case struct {
 
 var c12Mutations = []string{"flip-version", "flip-nonce", "flip-ciphertext", "flip-tag", "multi-edit", "truncate", "extend", "set-version",
 	"b64-url-alphabet", "b64-strip-padding", "b64-extra-padding", "b64-insert-crlf", "b64-insert-space", "b64-trailing-bits",
-	"other-key", "swap", "concat", "empty", "identity-respell"}
+	"other-key", "swap", "concat", "empty", "identity-respell", "sibling-stream", "sibling-stream"}
 
 func genC12(t *rapid.T) c12Case {
 	c := c12Case{Method: []string{"s_prod", "s_exch", "s_dyn"}[rapid.IntRange(0, 2).Draw(t, "method")],
@@ -225,7 +225,23 @@ func runC12(c c12Case) (out lib.Outcome) {
 	out.Label("mut:"+c.Mutation, "which:"+c.Which)
 	pCursor, pCall := cursor, callTok
 	var orig, mutated string
-	if c.Which == "cursor" {
+	if c.Mutation == "sibling-stream" {
+		// a genuine token of the same kind, same key, same caller — minted for
+		// another stream of the same method on this server: each token is
+		// unaltered, the pair does not belong together
+		sCursor, sCall, ok := mint(h)
+		if !ok {
+			out.Violate("C12/harness-mint", "could not mint a sibling stream")
+			return
+		}
+		if c.Which == "cursor" {
+			orig, mutated = cursor, sCursor
+			pCursor = mutated
+		} else {
+			orig, mutated = callTok, sCall
+			pCall = mutated
+		}
+	} else if c.Which == "cursor" {
 		orig, mutated = cursor, c.mutateToken(cursor, callTok, fCursor)
 		pCursor = mutated
 	} else {
@@ -250,6 +266,11 @@ func runC12(c c12Case) (out lib.Outcome) {
 		out.Label("altered-structure-broken")
 	}
 	consulted := c.Which == "cursor" || c.Cache0
+	if c.Mutation == "sibling-stream" {
+		// both tokens are genuine; what is wrong is the pairing, which the server
+		// only looks at when it has to open the call token
+		consulted = c.Cache0
+	}
 	if !consulted {
 		out.Label("call-token-not-consulted")
 	}
@@ -291,7 +312,7 @@ func runC12(c c12Case) (out lib.Outcome) {
 	if !spellingKnown {
 		out.Label("respelling-ambiguous")
 	}
-	if structIntact && resp.Status >= 400 && spellingKnown {
+	if structIntact && resp.Status >= 400 && spellingKnown && c.Mutation != "sibling-stream" {
 		refTok := c12Case{Mutation: "flip-tag", Pos: 0, Bit: 0}.mutateToken(orig, "", "")
 		rc, rcall := cursor, callTok
 		if c.Which == "cursor" {
@@ -309,11 +330,11 @@ func runC12(c c12Case) (out lib.Outcome) {
 
 var propC12 = lib.Prop[c12Case]{
 	ID: "C12",
-	Rule: "real cursor and call tokens minted at producer/exchange/dynamic methods after 0-2 turns, then one of them altered: bit flips in the version byte / nonce / ciphertext / tag, multi-byte edits, truncation to any length, extension, any version byte, base64 respellings (URL alphabet, stripped/extra padding, CR LF, space, non-canonical trailing bits, identical re-encoding), tokens of the same kind sealed under another key of length 16-64, cursor and call token swapped or concatenated, empty; call cache default or disabled. " +
+	Rule: "real cursor and call tokens minted at producer/exchange/dynamic methods after 0-2 turns, then one of them altered: bit flips in the version byte / nonce / ciphertext / tag, multi-byte edits, truncation to any length, extension, any version byte, base64 respellings (URL alphabet, stripped/extra padding, CR LF, space, non-canonical trailing bits, identical re-encoding), tokens of the same kind sealed under another key of length 16-64, cursor and call token swapped or concatenated, empty, a genuine token of the same kind minted for a sibling stream on the same server; call cache default or disabled. " +
 		"Oracle: if the decoded bytes differ from the sealed original (and the server has to consult that token) -> 4xx, with the state call log, rehydrate counter and dispatch-hook counter unchanged; refusals whose structure is intact are byte-identical to a reference bad-signature refusal. Non-trivial: altered token that still base64-decodes to >= 41 bytes with the right version byte.",
 	Gen:          genC12,
 	Run:          runC12,
-	Essential:    []string{"altered-structure-intact", "altered-structure-broken", "same-bytes", "mut:other-key", "which:call", "call-token-not-consulted"},
+	Essential:    []string{"altered-structure-intact", "altered-structure-broken", "same-bytes", "mut:other-key", "mut:sibling-stream", "which:call", "call-token-not-consulted"},
 	EssentialMin: 300,
 }
 
